@@ -328,10 +328,21 @@ pub fn build(seed: u64, lossy: bool, with_strays: bool, with_replay: bool) -> C1
             .filter(|d| !d.injected && d.pdu.as_ref().map(|p| pdu_tid(p) == id0).unwrap_or(false))
             .collect();
         let mut t = end + 1500 + rng.below(1000);
-        for d in cand {
+        for d in &cand {
             if rng.chance(2, 3) {
                 sc.actions.push(Action { trigger: Trigger::AtMs(t), entity: d.to, kind: ActionKind::Inject { to: d.to, as_from: d.from, bytes: d.bytes.clone() } });
                 t += 1 + rng.below(5);
+            }
+        }
+        // reflections: the transaction's own PDUs come back to the entity that emitted them (a looping link), around and
+        // shortly after the end of that entity's transaction, i.e. also while its routing entry has not been cleaned up yet
+        for who in [p0.from, p0.to] {
+            let t_term = tr.terminated_at(who, id0).unwrap_or(end);
+            for d in cand.iter().filter(|d| d.from == who) {
+                if rng.chance(1, 3) {
+                    let t = (t_term + rng.below(1600)).saturating_sub(60);
+                    sc.actions.push(Action { trigger: Trigger::AtMs(t), entity: who, kind: ActionKind::Inject { to: who, as_from: d.to, bytes: d.bytes.clone() } });
+                }
             }
         }
         replayed_puts.push(0);
@@ -349,7 +360,7 @@ fn rng_bool(seed: u64, j: u64) -> bool {
 pub fn run(ctx: &mut Ctx) {
     ctx.rule = "seeded generation: 2-3 real daemons (id widths 1/2/4/8, different configurations per daemon), 2..8 (one in four: up to 24) Puts issued within 30 ms in any direction, acknowledged and unacknowledged, sizes \
 {0,1,seg,3seg+5,6seg}, contents tagged per transaction, destinations in per-sender directories; four families: loss-free, loss-free + strays, lossy (per-datagram loss 1..20 %, delays, duplicates on every link) + strays, and \
-loss-free + strays + replay of a random subset of the PDUs of Put #0 after it has ended. Strays (1..12 per scenario): ACK/NAK/Finished for a sender that does not exist, PDUs naming entity 77 (no transport), Metadata / FileData / EOF / \
+loss-free + strays + replay of a random subset of the PDUs of Put #0 after it has ended, plus reflections of its PDUs back to the entity that emitted them around the end of that transaction. Strays (1..12 per scenario): ACK/NAK/Finished for a sender that does not exist, PDUs naming entity 77 (no transport), Metadata / FileData / EOF / \
 Prompt / ACK(Finished) with fresh ids from a known peer. Non-trivial = two transactions overlapped in time on one daemon, or at least one stray PDU was routed; distinct by scenario."
         .into();
     ctx.assumptions = vec![
